@@ -701,6 +701,12 @@ def overwrite_case(work):
                 fails.append(("C07/file-differs-from-document", "writing %s to a path that held a document of %s: %d characters on disk, the document has %d" % (u, "another namespace", len(got), len(want[1]) if want[0] == "ok" else -1)))
                 break
             fails += [(s_, "file output over an existing file: " + d_) for s_, d_ in oracle_c07(u, ["ok", got])]
+        # time stamps given by the caller in a zone other than UTC (datetime.now().astimezone() on most machines), and naive ones
+        import datetime as _dt
+        for tz_ in (_dt.timezone(_dt.timedelta(hours=2)), _dt.timezone(-_dt.timedelta(hours=9, minutes=30)), None):
+            ts_ = _dt.datetime(2024, 5, 6, 7, 8, 9, 120000, tzinfo=tz_)
+            s_io = io.StringIO(); G.write_nodeset(s_io, U2, last_modified=ts_, publication_date=ts_)
+            fails += [(s_, "time stamps with UTC offset %s: " % (tz_,) + d_) for s_, d_ in oracle_c07(U2, ["ok", s_io.getvalue()])]
     except BaseException as e:
         fails.append(("C07/write-raises", "file output over an existing file: %s" % type(e).__name__))
     return fails
